@@ -143,6 +143,31 @@ def main():
         cmds += kani_res["cmds"]
         trusted += kani_res["trusted"]
 
+    # ------------------------------------------------------------------ bounded native sweep (stand-in for code outside the verifiers' reach)
+    sweep_res = None
+    if cfg.get("sweep", True):
+        try:
+            import replay_driver
+            sweep_res = replay_driver.sweep(prop)
+            bounded.append(dict(harness="native-sweep", function="public API of the real crate (trusted / external functions, dispatcher glue)",
+                                bound="%d scenarios: %s" % (sweep_res["scenarios"], json.dumps(sweep_res["families"])),
+                                status="FAILED" if sweep_res["violations"] else "SUCCESSFUL", label=prop + ".*"))
+            have = set(f["label"] for f in failures)
+            for sv in sweep_res["violations"]:
+                fam, sc = sv["scenario"].split(":", 1)
+                wit = dict(found=True, family=fam, scenario=sc, label_searched=sv["label"], source="bounded native sweep")
+                hit = [f for f in failures if f["label"] == sv["label"]]
+                if hit:
+                    for f in hit:
+                        f["sweep_witness"] = wit
+                    continue
+                failures.append(dict(obligation="sweep::%s" % sv["label"], label=sv["label"], fn="(bounded sweep, family %s)" % fam, kind="bounded-sweep",
+                                     message="scenario %s violates clause %s on the real code" % (sv["scenario"], sv["label"]),
+                                     unit="native-sweep", engine="native-sweep", sweep_witness=wit, src=None, text=sv["scenario"], detail=""))
+            cmds.append("nundb-replay sweep %s   (native build of /verif/replay against the repo)" % prop)
+        except Exception as e:
+            infra.append("bounded sweep unavailable: %s" % str(e)[:300])
+
     # ------------------------------------------------------------------ verdict
     known = load_known()
     new_fail, known_hit = [], []
@@ -167,12 +192,13 @@ def main():
             violations += 1
             name = re.sub(r"[^A-Za-z0-9_.-]+", "_", "%s-%s%s" % (prop, f["obligation"], ("-" + f["detail"]) if f.get("detail") else ""))[:150]
             rp = os.path.join(REPLAYS, name + ".json")
-            witness = None
-            try:
-                import replay_driver
-                witness = replay_driver.search(prop, f)
-            except Exception as e:
-                witness = dict(found=False, note="witness search unavailable: %s" % e)
+            witness = f.get("sweep_witness")
+            if witness is None:
+                try:
+                    import replay_driver
+                    witness = replay_driver.search(prop, f)
+                except Exception as e:
+                    witness = dict(found=False, note="witness search unavailable: %s" % e)
             if f.get("counterexample"):
                 witness = dict(found=True, source="kani concrete playback", input=f["counterexample"])
             rec = dict(property=prop, obligation=f["obligation"], label=f["label"], function=f["fn"], engine=f["engine"], unit=f["unit"],
